@@ -9,7 +9,7 @@ import Cellml.Tie.Printer
 
 set_option linter.unusedSimpArgs false
 
-namespace Cellml.Tie
+namespace Cellml.Tie.PPrinter
 open C11 Cellml.Gen
 
 /-- the text of the tree starts with `-` exactly when the tree does, and then `t[1:]` is the text of the peeled tree -/
@@ -229,4 +229,4 @@ theorem minusOK_of_atomsOK (d : Doc) (h : atomsOK d = true) : MinusOK d := by
         cases t <;> first | exact absurd rfl ht | rfl
       simpa [e1, e2, startsMinus, peelLeft, MinusOK, String.append_assoc] using this
 
-end Cellml.Tie
+end Cellml.Tie.PPrinter
